@@ -56,29 +56,30 @@ theorem consistent_of_inv {w : World} (h : Grid.Inv w) : Consistent w where
 
 theorem inv_empty : Grid.Inv World.empty := Proofs.Grid.inv_empty
 
-/-- **inv_step** (all operations except grid addition and embedding): an operation applied within
-    its precondition `pre` (Model/GridInv.lean: no argument misuse, none of the known findings
-    F1–F3) leaves the invariant true — whether the call returns or raises. -/
-theorem inv_step_core {w : World} (hI : Grid.Inv w) (op : Op) (hpre : pre w op = true)
-    (hs : Proofs.Grid.isSum op = false) : Grid.Inv (step w op).w :=
-  Proofs.Grid.inv_step_core hI op hpre hs
+/-- **inv_step.**  Every operation of the edit alphabet (`Model.Grid.Op`: add/delete block,
+    connection, rock type; rename_rocktype; clean/sort_rocktypes; demote_block; reorder;
+    rename_blocks; minc; grid addition; embed; re-adding objects) applied within its precondition
+    `pre` (Model/GridInv.lean: no argument misuse, none of the known findings F1–F3) leaves the
+    invariant true — whether the call returns or raises. -/
+theorem inv_step {w : World} (hI : Grid.Inv w) (op : Op) (hpre : pre w op = true) : Grid.Inv (step w op).w :=
+  Proofs.Grid.inv_step hI op hpre
 
 /-- every operation of a history is applied within its precondition -/
 def PreAll : World → List Op → Prop
   | _, [] => True
-  | w, op :: r => pre w op = true ∧ Proofs.Grid.isSum op = false ∧ PreAll (step w op).w r
+  | w, op :: r => pre w op = true ∧ PreAll (step w op).w r
 
 instance instDecPreAll : (w : World) → (ops : List Op) → Decidable (PreAll w ops)
   | _, [] => isTrue trivial
   | w, op :: r =>
     have := instDecPreAll (step w op).w r
-    show Decidable (pre w op = true ∧ Proofs.Grid.isSum op = false ∧ PreAll (step w op).w r) from inferInstance
+    show Decidable (pre w op = true ∧ PreAll (step w op).w r) from inferInstance
 
 /-- **inv_run**: by induction over any operation list — every reachable state is consistent. -/
 theorem inv_run {w : World} (hI : Grid.Inv w) (ops : List Op) (h : PreAll w ops) : Grid.Inv (run w ops) := by
   induction ops generalizing w with
   | nil => exact hI
-  | cons op r ih => exact ih (inv_step_core hI op h.1 h.2.1) h.2.2
+  | cons op r ih => exact ih (inv_step hI op h.1) h.2
 
 /-- the property: after any sequence of (valid) edits from the empty grid, the grid is consistent -/
 theorem consistent_after_any_history (ops : List Op) (h : PreAll World.empty ops) :
@@ -86,7 +87,11 @@ theorem consistent_after_any_history (ops : List Op) (h : PreAll World.empty ops
   consistent_of_inv (inv_run inv_empty ops h)
 
 example : PreAll World.empty [.addRocktype ['r'] 1, .addBlock ['A'] ['r'] 1 none, .addBlock ['B'] ['r'] 1 none,
-    .addConnection ['A'] ['B'] ⟨1, 1, 1, 1, none, none, none⟩, .deleteBlock ['A'], .cleanRocktypes] := by decide
+    .addConnection ['A'] ['B'] ⟨1, 1, 1, 1, none, none, none⟩, .deleteBlock ['A'], .readdBlock ['A'], .cleanRocktypes] := by decide
+-- a history with a grid addition and an embedding (second grids built from recipes)
+example : PreAll World.empty [.addRocktype ['r'] 1, .addBlock ['A'] ['r'] 8 none,
+    .addGrid ⟨[(['s'], 2)], [(['B'], ['s'], 1, none), (['C'], ['s'], 1, none)], [(0, 1, ⟨1, 1, 1, 1, none, none, none⟩)]⟩ true,
+    .embed ⟨[(['t'], 3)], [(['D'], ['t'], 1, none)], []⟩ ['A'] ['D'] ⟨1, 1, 1, 1, none, none, none⟩] := by decide +kernel
 
 /-! ### renaming with a one-to-one map loses no block -/
 
@@ -131,7 +136,7 @@ theorem rename_loses_no_block {w : World} (hI : Grid.Inv w) (m m1 : Dict Name Na
 /-- and the invariant holds afterwards (instance of `inv_step_core`) -/
 theorem rename_keeps_inv {w : World} (hI : Grid.Inv w) (m : Dict Name Name) (fix : Bool)
     (hpre : pre w (.renameBlocks m fix) = true) : Grid.Inv (step w (.renameBlocks m fix)).w :=
-  inv_step_core hI _ hpre rfl
+  inv_step hI _ hpre
 
 namespace Examples
 def A : Name := ['A','A',' ',' ','1']
@@ -202,11 +207,10 @@ end Examples
 
 /-! ### adding and embedding grids
 
-`grid + other` and `grid.embed(sub, connection)` take a second grid object.  The theorems are about
-the methods themselves (`World.addGrids`, `World.embed`) for *any* two grids that live in the same
-heap; the preconditions are those that `pre` states for the operations `.addGrid` / `.embed`
-(whose second grid is built from a recipe with the public API, i.e. by `addRocktype`, `addBlock`,
-`addConnection` steps from an empty grid — covered by `inv_run`). -/
+`grid + other` and `grid.embed(sub, connection)` take a second grid object.  `inv_step` covers the
+operations `.addGrid` / `.embed`, whose second grid is built from a recipe with the public API in the
+same heap.  The two theorems below are about the methods themselves (`World.addGrids`,
+`World.embed`) for *any* two grids that live in one heap. -/
 
 /-- **Grid addition.**  If both operands are consistent, share no object and no block name (a common
     block name is known finding F1 / argument misuse), and every rock type of the first operand whose
@@ -227,8 +231,8 @@ theorem grid_addition_consistent {w : World} {g1 g2 : Grid}
 
 /-- **Embedding.**  Host = the current grid, `sub` a second consistent grid in the same heap (no
     common object; a host rock type whose name occurs in `sub` is unused, else F2), `c` a new
-    connection object from a host block to a block of `sub`.  Whether `embed` returns a grid, `None`
-    (sub-grid too big or a common block name: nothing changes) or raises, the grid is consistent. -/
+    connection object from a host block to a block of `sub`.  `embed` does not raise; whether it returns a grid or `None`
+    (sub-grid too big or a common block name: nothing changes), the grid is consistent. -/
 theorem embed_consistent {w : World} {sub : Grid} {c : Nat}
     (h1 : Grid.Inv w) (h2 : Grid.Inv (w.withGrid sub))
     (oR : ∀ x ∈ w.rocktypelist, x ∉ sub.rocktypelist) (oB : ∀ x ∈ w.blocklist, x ∉ sub.blocklist)
@@ -236,14 +240,9 @@ theorem embed_consistent {w : World} {sub : Grid} {c : Nat}
     (nR : ∀ x ∈ w.rocktypelist, ∀ y ∈ sub.rocktypelist, w.rname x = w.rname y → ∀ b ∈ w.blocklist, (w.bk b).rock ≠ x)
     (hc : c < w.cons.length) (hc1 : c ∉ w.connectionlist) (hc2 : c ∉ sub.connectionlist)
     (hhost : (w.cn c).b0 ∈ w.blocklist) (hsb : (w.cn c).b1 ∈ sub.blocklist) :
-    match embed w sub c with
-    | .ok (w', _) => Grid.Inv w'
-    | .error (_, w') => Grid.Inv w' := by
-  have := Proofs.Grid.embed_inv h1 h2 oR oB oC nR hc hc1 hc2 hhost hsb
-  split at this
-  · rename_i w' heq; rw [heq]; exact this.1
-  · rename_i w' heq; rw [heq]; simp only []; rw [this]; exact h1
-  · rename_i e w' heq; rw [heq]; exact this
+    ∃ w' fl, embed w sub c = .ok (w', fl) ∧ Consistent w' ∧ (fl = false → w' = w) := by
+  obtain ⟨w', fl, e, hI, _, hf⟩ := Proofs.Grid.embed_inv h1 h2 oR oB oC nR hc hc1 hc2 hhost hsb
+  exact ⟨w', fl, e, consistent_of_inv hI, hf⟩
 
 /-! ### the grid refines "finite map name ↦ block, with an order" -/
 
